@@ -2325,12 +2325,39 @@ func decisionCount(w *World, fn *ssa.Function) int {
 			}
 		}
 	}
+	// ... and the errors it returns straight from a call without testing them (`return f()` is
+	// `if e := f(); e != nil { return e }; return nil`)
+	tested := map[ssa.Value]bool{}
+	for c := range conds {
+		if bo, ok := c.(*ssa.BinOp); ok {
+			tested[bo.X], tested[bo.Y] = true, true
+		}
+	}
+	var visitErr func(v ssa.Value)
+	visitErr = func(v ssa.Value) {
+		if v == nil || seen[v] {
+			return
+		}
+		seen[v] = true
+		switch x := v.(type) {
+		case *ssa.Phi:
+			for _, e := range x.Edges {
+				visitErr(e)
+			}
+		case *ssa.Call, *ssa.Extract:
+			if !tested[v] {
+				n++
+			}
+		}
+	}
 	for _, b := range fn.Blocks {
 		if rt := returnOf(b); rt != nil && b != fn.Recover {
 			for i := range rt.Results {
 				rv := retValue(rt, i)
 				if bt, ok := rv.Type().Underlying().(*types.Basic); ok && bt.Kind() == types.Bool {
 					visit(rv)
+				} else if isErrorType(rv.Type()) {
+					visitErr(rv)
 				}
 			}
 		}
